@@ -28,7 +28,7 @@ os.makedirs(OUT, exist_ok=True)
 for pid in sorted(os.listdir(RES)):
     if ONLY and pid not in ONLY:
         continue
-    for m in "xyz":
+    for m in os.environ.get("LETTERS", "xyz"):
         patch = os.path.join(RES, pid, "%s.benign.diff" % m)
         if not os.path.exists(patch):
             continue
